@@ -66,18 +66,45 @@ def r1_compare_all(repo=None):
     ext = cfront.ext(repo)
     fi = ext.fn("_py_rf_write_hdf5_init")
     gi = _cfg.build_c(fi)
-    conds = [n for n in gi.nodes if n.kind == "cond" and n.ast is not None and n.ast.path() == "hdf5_write_data_object"]
+    mk = fi.calls(("digital_rf_create_write_hdf5",))
+    if len(mk) != 1:
+        raise AnalysisError("_py_rf_write_hdf5_init: expected one digital_rf_create_write_hdf5 call")
+    use = clib.status_usage(mk[0])
+    if not use.startswith("assigned:"):
+        raise AnalysisError("_py_rf_write_hdf5_init: result of digital_rf_create_write_hdf5 is not stored in a variable (%s)" % use)
+    objv = use.split(":", 1)[1]
+    mkn = clib.node_of(gi, mk[0])
     caps = [n for n in gi.nodes if n.ast is not None and n.ast.calls(("PyCapsule_New",))]
-    if conds and caps:
-        fs = [b for b, l in gi.succ[conds[0].id] if l == "F"]  # `!obj` decomposed: F edge = NULL object
-        reach = gi.reach(fs)
-        if any(c.id in reach for c in caps) or not any(x.ast is not None and x.ast.calls(("PyErr_SetString",)) for x in gi.nodes if x.id in reach):
-            r.violation(C_EXT, fi.name, "NULL writer object not turned into an exception", "Python would receive a capsule for "
-                        "a refused session", line=conds[0].line)
-        else:
-            r.ok("%s:%s %s" % (C_EXT, conds[0].line, fi.name), "NULL from the library -> PyErr_SetString + return NULL")
+    if not caps:
+        raise AnalysisError("_py_rf_write_hdf5_init: PyCapsule_New not found")
+    # branch nodes that test the object and their NULL edge
+    tests = []
+    for n in gi.nodes:
+        if n.kind == "cond" and n.ast is not None and n.id in gi.reach([mkn.id]) and clib._reads(n.ast, objv):
+            e = n.ast.strip()
+            null_lab = None
+            if e.kind == "BinaryOperator" and e.opcode in ("==", "!="):
+                other = e.children[1] if e.children[0].path() == objv else e.children[0]
+                if other.intval() == 0 or "NULL" in other.nsrc:
+                    null_lab = "T" if e.opcode == "==" else "F"
+            elif e.path() == objv:
+                null_lab = "F"
+            if null_lab:
+                tests.append((n, null_lab))
+    if not tests:
+        r.violation(C_EXT, fi.name, "result of digital_rf_create_write_hdf5 (`%s`) is never tested for NULL" % objv,
+                    "Python would receive a capsule wrapping NULL for a refused session", line=mk[0].line)
     else:
-        raise AnalysisError("_py_rf_write_hdf5_init: NULL test or PyCapsule_New not found")
+        n, lab = tests[0]
+        nulls = [b for b, l in gi.succ[n.id] if l == lab]
+        reach = gi.reach(nulls)
+        dominated = all(c.id not in gi.reach([mkn.id], avoid=[n.id]) for c in caps)
+        if any(c.id in reach for c in caps) or not dominated or not any(
+                x.ast is not None and x.ast.calls(("PyErr_SetString", "PyErr_Format")) for x in gi.nodes if x.id in reach):
+            r.violation(C_EXT, fi.name, "NULL writer object not turned into an exception", "Python would receive a capsule for "
+                        "a refused session", line=n.line)
+        else:
+            r.ok("%s:%s %s" % (C_EXT, n.line, fi.name), "NULL from the library -> PyErr_SetString + return NULL, before any capsule is made")
     r.guard(14)
     return r
 
